@@ -145,6 +145,11 @@ func lemma_deps_rdeps_inverse(g *DirectedTargetGraph, n, d model.BuildNode) ([]m
 
 // C12/C03: routines exist only for selected nodes (spawn precondition of nodeRoutine); C04: walker state is touched under
 // its mutex or before the first routine is started.
+//@ func NewWalker(graph, walkFunc, failFast) (w)
+//@   pure
+//@   allocates w
+//@   ensures [fields] w != nil && w.graph == graph && w.completions != nil && w.nodeInfoMap != nil && w.failFast == failFast
+
 //@ func (*Walker).Walk(w, ctx) (m, err)
 //@   note exclusive w
 //@   requires [graph] nodesWF(w.graph) && absEdges(w.graph) && absOutEdges(w.graph) && endpointsAreNodes(w.graph) && w.completions != nil && w.nodeInfoMap != nil
